@@ -1,15 +1,173 @@
 /-
   Avt.Spec.C17 — oracle of property C17 (decidable predicates evaluated on implementation states;
   the same definitions the theorems in Avt/Props/C17.lean are stated with).
+
+  The property is specified per step, on the two saved contexts kept in the state
+  (`savedCtx` = context of the screen that is showing, `alternateSavedCtx` = context of the other one):
+
+  (1) a save (DECSC `ESC 7`, SCOSC `CSI s`, `?1048h`, the first half of `?1049h`) records
+      `ctxOf t` = (min col (cols-1), row, pen, origin mode, auto-wrap mode) in `savedCtx`;
+  (2) a restore (DECRC `ESC 8`, SCORC `CSI u`, `?1048l`, the second half of `?1049l`) sets column,
+      row, pen, origin mode and auto-wrap mode from `savedCtx`, clears the pending wrap and leaves
+      both contexts as they are;
+  (3) every other function leaves both contexts unchanged, except: a switch of screens
+      (`?47/1047/1049 h/l`) swaps them (and clamps the one that becomes active into the screen),
+      DECSTR resets the active one to the power-on default, RIS resets both, and a resize clamps
+      the active one into the new screen.
+
+  `stepOK t f t'` is that specification for one function `f` taking `t` to `t'`; it covers every
+  `Function` (lists of DEC modes longer than one only when no member saves or switches).
 -/
 import Avt.Spec.Base
 
 namespace Avt.Spec.C17
 open Avt Avt.Spec
 
-def checkStep (_ev : StepEv) : List Verdict := []
+/-- the context a save records -/
+def ctxOf (t : Terminal) : SavedCtx :=
+  { cursorCol := min t.cursor.col (t.cols - 1), cursorRow := t.cursor.row, pen := t.pen,
+    originMode := t.originMode, autoWrapMode := t.autoWrapMode }
 
-def checkNew (_cols _rows : Nat) (_lim : Option Nat) (_st : Vt) : List Verdict := []
+/-- power-on default: (0,0), default pen, origin off, auto-wrap on -/
+def defaultCtx : SavedCtx :=
+  { cursorCol := 0, cursorRow := 0, pen := Pen.default, originMode := false, autoWrapMode := true }
+
+/-- a saved position clamped into a `cols × rows` screen -/
+def clampCtx (cols rows : Nat) (s : SavedCtx) : SavedCtx :=
+  { s with cursorCol := min s.cursorCol (cols - 1), cursorRow := min s.cursorRow (rows - 1) }
+
+def ctxInside (cols rows : Nat) (s : SavedCtx) : Bool := s.cursorCol < cols && s.cursorRow < rows
+
+/-- `t'` shows exactly the context `s` (clause 2) -/
+def restoredFrom (s : SavedCtx) (t' : Terminal) : Bool :=
+  t'.cursor.col == s.cursorCol && t'.cursor.row == s.cursorRow && t'.pen == s.pen
+    && t'.originMode == s.originMode && t'.autoWrapMode == s.autoWrapMode && !t'.pendingWrap
+
+/-- pen and the two modes of `s` (the part of a restore that a following reflow cannot disturb) -/
+def restoredModes (s : SavedCtx) (t' : Terminal) : Bool :=
+  t'.pen == s.pen && t'.originMode == s.originMode && t'.autoWrapMode == s.autoWrapMode
+    && !t'.pendingWrap
+
+def ctxKept (t t' : Terminal) : Bool :=
+  t'.savedCtx == t.savedCtx && t'.alternateSavedCtx == t.alternateSavedCtx
+
+/-- cursor, pen, modes and screen contents are the same (what a save must not disturb) -/
+def sameVisible (t t' : Terminal) : Bool :=
+  t'.cursor == t.cursor && t'.pen == t.pen && t'.originMode == t.originMode
+    && t'.autoWrapMode == t.autoWrapMode && t'.pendingWrap == t.pendingWrap
+    && t'.buffer.view == t.buffer.view && t'.activeBufferType == t.activeBufferType
+
+/-- does setting (`set = true`) / resetting this DEC mode write a saved context or swap them? -/
+def modeTouches (set : Bool) : DecMode → Bool
+  | .saveCursor => set
+  | .altScreenBuffer => true
+  | .saveCursorAltScreenBuffer => true
+  | _ => false
+
+/-- functions that write or swap the saved contexts (restores do not) -/
+def touchesCtx : Function → Bool
+  | .decsc | .scosc | .decstr | .ris => true
+  | .decset ms => ms.any (modeTouches true)
+  | .decrst ms => ms.any (modeTouches false)
+  | _ => false
+
+/-- contexts after showing screen `to`: swapped when it was not showing; the one that becomes (or
+    stays) active is clamped into the screen -/
+def showScreen (t : Terminal) (to : BufferType) (s a : SavedCtx) : SavedCtx × SavedCtx :=
+  if t.activeBufferType = to then (clampCtx t.cols t.rows s, a) else (clampCtx t.cols t.rows a, s)
+
+/-- expected `(savedCtx, alternateSavedCtx)` after setting / resetting one DEC mode in `t` -/
+def modeCtx (t : Terminal) (set : Bool) (m : DecMode) : SavedCtx × SavedCtx :=
+  match m, set with
+  | .saveCursor, true => (ctxOf t, t.alternateSavedCtx)
+  | .saveCursorAltScreenBuffer, true => showScreen t .alternate (ctxOf t) t.alternateSavedCtx
+  | .altScreenBuffer, true => showScreen t .alternate t.savedCtx t.alternateSavedCtx
+  | .altScreenBuffer, false => showScreen t .primary t.savedCtx t.alternateSavedCtx
+  | .saveCursorAltScreenBuffer, false => showScreen t .primary t.savedCtx t.alternateSavedCtx
+  | _, _ => (t.savedCtx, t.alternateSavedCtx)
+
+/-- the context `?1049l` restores: the primary screen's -/
+def primaryCtx (t : Terminal) : SavedCtx :=
+  if t.activeBufferType = .primary then t.savedCtx else t.alternateSavedCtx
+
+/-- the primary screen's buffer has the terminal's geometry (no resize while it was parked) -/
+def primaryFresh (t : Terminal) : Bool :=
+  t.activeBufferType == .primary || (t.otherBuffer.cols == t.cols && t.otherBuffer.rows == t.rows)
+
+/-- the specification of one function -/
+def stepOK (t : Terminal) (f : Function) (t' : Terminal) : Bool :=
+  let pair := (t'.savedCtx, t'.alternateSavedCtx)
+  match f with
+  | .decsc | .scosc =>
+    t'.savedCtx == ctxOf t && t'.alternateSavedCtx == t.alternateSavedCtx && sameVisible t t'
+  | .decrc | .scorc =>
+    restoredFrom t.savedCtx t' && ctxKept t t' && t'.buffer.view == t.buffer.view
+      && t'.cursor.visible == t.cursor.visible
+  | .decset [m] =>
+    pair == modeCtx t true m && (m != .saveCursor || sameVisible t t')
+  | .decrst [m] =>
+    pair == modeCtx t false m
+      && (m != .saveCursor || (restoredFrom t.savedCtx t' && t'.buffer.view == t.buffer.view))
+      && (m != .saveCursorAltScreenBuffer
+          || (restoredModes (primaryCtx t) t'
+              && (!primaryFresh t
+                  || (t'.cursor.col == (primaryCtx t).cursorCol && t'.cursor.row == (primaryCtx t).cursorRow))))
+  | .decstr => t'.savedCtx == defaultCtx && t'.alternateSavedCtx == t.alternateSavedCtx
+  | .ris => t'.savedCtx == defaultCtx && t'.alternateSavedCtx == defaultCtx
+  | f => touchesCtx f || ctxKept t t'
+
+/-- the specification of a resize to `cols × rows` -/
+def resizeOK (cols rows : Nat) (t t' : Terminal) : Bool :=
+  t'.savedCtx == clampCtx cols rows t.savedCtx && t'.alternateSavedCtx == t.alternateSavedCtx
+    && ctxInside cols rows t'.savedCtx
+
+def isRestore : Function → Bool
+  | .decrc | .scorc => true
+  | .decrst ms => ms.any fun m => m == .saveCursor || m == .saveCursorAltScreenBuffer
+  | _ => false
+
+def isSave : Function → Bool
+  | .decsc | .scosc => true
+  | .decset ms => ms.any fun m => m == .saveCursor || m == .saveCursorAltScreenBuffer
+  | _ => false
+
+/-- which clause of the specification a function falls under (for the report) -/
+def clauseName (f : Function) : String :=
+  match f with
+  | .decsc | .scosc => "save-records-context"
+  | .decrc | .scorc => "restore-reestablishes-context"
+  | .decstr | .ris => "reset-restores-default-context"
+  | .decset ms =>
+    if ms.any (modeTouches true) then "decset-save-or-switch-contexts" else "frame-keeps-contexts"
+  | .decrst ms =>
+    if ms.any (modeTouches false) then "decrst-switch-contexts"
+    else if isRestore (.decrst ms) then "restore-reestablishes-context" else "frame-keeps-contexts"
+  | _ => "frame-keeps-contexts"
+
+/-! ### the oracle -/
+
+def checkStep (ev : StepEv) : List Verdict :=
+  let pt := ev.prev.terminal
+  let nt := ev.next.terminal
+  [ check "saved-position-inside-screen" true (ctxInside nt.cols nt.rows nt.savedCtx) ]
+  ++ (if ev.kind == .resize then
+        [ check "resize-clamps-active-context-only" true (resizeOK ev.cols ev.rows pt nt) ]
+      else
+        match ev.funs with
+        | [] => [ check "no-function-keeps-contexts" false (ctxKept pt nt) ]
+        | [f] =>
+          [ check (clauseName f) (touchesCtx f || isRestore f) (stepOK pt f nt) ]
+          ++ (if isRestore f then
+                [ check "restored-position-inside-screen" true
+                    (nt.cursor.col < nt.cols && nt.cursor.row < nt.rows) ]
+              else [])
+        | fs =>
+          if fs.any touchesCtx then []
+          else [ check "frame-keeps-contexts" (fs.any isRestore) (ctxKept pt nt) ])
+
+def checkNew (_cols _rows : Nat) (_lim : Option Nat) (st : Vt) : List Verdict :=
+  [ check "new-contexts-are-default" true
+      (st.terminal.savedCtx == defaultCtx && st.terminal.alternateSavedCtx == defaultCtx) ]
 
 def checkParserStep (_prev : Parser) (_c : Nat) (_next : Parser) (_fn : String) : List Verdict := []
 
